@@ -123,6 +123,56 @@ class Link:
         dst.feed(data, self.cutter(data) if self.cutter else None)
 
 
+def protocol_factory_of(owner):
+    """the zero-argument callable with which a Channel / Server makes the protocol object of a new connection.
+    Found by its customary private name, else by role: a bound zero-argument method whose name mentions
+    'protocol' and which returns an H2Protocol."""
+    f = getattr(owner, '_protocol_factory', None)
+    if callable(f):
+        return f
+    from grpclib.protocol import H2Protocol
+    import inspect
+    for n in dir(owner):
+        if 'protocol' not in n.lower() or n.startswith('__'):
+            continue
+        f = getattr(owner, n, None)
+        if not callable(f) or inspect.iscoroutinefunction(f):
+            continue
+        try:
+            if [p for p in inspect.signature(f).parameters.values()
+                    if p.default is p.empty and p.kind in (p.POSITIONAL_ONLY, p.POSITIONAL_OR_KEYWORD)]:
+                continue
+            if isinstance(f(), H2Protocol):
+                return f
+        except Exception:
+            continue
+    raise RuntimeError('cannot find how %r makes its protocol objects' % type(owner).__name__)
+
+
+def hook_loop_connections(loop):
+    """Connection attempts made through the event loop (`loop.create_connection` / `create_unix_connection`, what
+    Channel does) are routed to the ClientEnd registered for the object the protocol factory is bound to."""
+    if getattr(loop, '_verif_clients', None) is not None:
+        return loop._verif_clients
+    reg = loop._verif_clients = {}
+
+    async def create_connection(factory, *args, **kw):
+        end = reg.get(id(getattr(factory, '__self__', None)))
+        if end is None:
+            raise RuntimeError('unscripted connection attempt through the event loop')
+        proto = await end.attempt(factory)
+        return proto_transport(proto), proto
+
+    def proto_transport(proto):
+        for pr, tr, _ in reversed(next(iter([e.conns for e in reg.values() if any(c[0] is proto for c in e.conns)]), [])):
+            if pr is proto:
+                return tr
+        return None
+    loop.create_connection = create_connection
+    loop.create_unix_connection = create_connection
+    return reg
+
+
 class ClientEnd:
     """A real Channel whose connection attempts are scripted and whose transport is in memory,
     talking to a scripted server-side h2 peer."""
@@ -136,20 +186,28 @@ class ClientEnd:
         if status_details_codec is not None:
             kw['status_details_codec'] = status_details_codec
         self.channel = Channel(codec=codec or RawCodec(), config=config, **kw)
-        self.channel._create_connection = self._create_connection
+        # connection attempts are scripted at the asyncio boundary (the loop's create_connection), which is what
+        # Channel calls; replacing the channel's own private coroutine as well keeps the attempt count exact when
+        # the loop the channel captured is not `loop`
+        hook_loop_connections(loop)[id(self.channel)] = self
+        if hasattr(self.channel, '_create_connection'):
+            self.channel._create_connection = self._create_connection
         self.connect_script = list(connect_script or [])   # [('ok', delay) | ('fail', delay)]
         self.connects = 0
         self.conns = []          # [(protocol, transport, peer)]
         self.auto_settings = auto_settings
 
     async def _create_connection(self):
+        return await self.attempt(protocol_factory_of(self.channel))
+
+    async def attempt(self, factory):
         self.connects += 1
         kind, delay = self.connect_script.pop(0) if self.connect_script else ('ok', 0)
         if delay:
             await asyncio.sleep(delay)
         if kind == 'fail':
             raise ConnectionRefusedError('scripted connect failure')
-        proto = self.channel._protocol_factory()
+        proto = factory()
         peer = Peer(client_side=False)
         tr = MemTransport(proto, self.loop, on_write=peer.receive)
         if self.tap:
@@ -191,7 +249,7 @@ class ServerEnd:
         self.connect()
 
     def connect(self):
-        proto = self.server._protocol_factory()
+        proto = protocol_factory_of(self.server)()
         peer = Peer(client_side=True)
         tr = MemTransport(proto, self.loop, on_write=peer.receive)
         if self.tap:
